@@ -139,6 +139,23 @@ def gen_formula(rng, spaces, space=None, ext=False):
     return (i, rng.randint(1, 5), a, r, c)
 
 
+# real functions (source retrievable) for `mx.defcells(func)`: named like the cells of the alphabet
+def f(x): return x + 31
+
+
+def g(x): return x + 32
+
+
+def h(x): return x + 33
+
+
+def k(x): return x + 34
+
+
+DEF_FUNCS = {"f": f, "g": g, "h": h, "k": k}
+del f, g, h, k
+
+
 # ----------------------------------------------------------------------------- live model
 
 class Live:
@@ -269,6 +286,32 @@ class Live:
         if k == "allow_none":
             self.space(op[1]).allow_none = op[2]
             return "ok"
+        if k == "cur_space":
+            # the SESSION's handle: ["cur_space", path, how]; how "mx" -> mx.cur_space(space object),
+            # "parent" -> <model or parent space>.cur_space(name)
+            if len(op) > 2 and op[2] == "parent":
+                parent = m if "." not in op[1] else self.space(op[1].rsplit(".", 1)[0])
+                parent.cur_space(op[1].rsplit(".", 1)[-1])
+            else:
+                mx.cur_space(self.space(op[1]))
+            return "ok"
+        if k == "cur_cells":
+            # API use through the session's handle: ["cur_cells", name, formula tuple, how]
+            #   "new_cells": mx.cur_space().new_cells(name, formula)   (nothing when there is no current space)
+            #   "model":     the same through model.cur_space()
+            #   "defcells":  mx.defcells(<function named `name`>) - acts on the current space of the current model,
+            #                creating one when there is none
+            how = op[3] if len(op) > 3 else "new_cells"
+            if how == "defcells":
+                mx.cur_model(m.name)
+                c = mx.defcells(DEF_FUNCS[op[1]])
+                return "ok " + rel(m, c)
+            mx.cur_model(m.name)
+            cur = mx.cur_space() if how == "new_cells" else m.cur_space()
+            if cur is None:
+                return "ok none"
+            c = cur.new_cells(op[1], formula=formula_src(op[1], op[2]))
+            return "ok " + rel(m, c)
         if k in ("new_cells_obj", "set_formula_obj", "set_param_obj", "new_space_obj"):
             return self._apply_obj(k, op)
         if k.startswith("batch_") or k == "copy_space":
